@@ -1,11 +1,11 @@
 (** * C14 — side conditions evaluated on the inventory REGENERATED from /repo on every run ([Gen/HazardsGen.v])
 
-    These three statements are re-proved (by computation) against the current tree each time; a new or changed
+    These statements are re-proved (by computation) against the current tree each time; a new or changed
     [range]-over-map statement, a new hazardous construct, or a tree the translator cannot type-check makes the
     corresponding statement fail to build — an open obligation, reported with the offending rows by
     tools/py/props/c14.py. *)
 From Coq Require Import List String NArith Bool.
-From Teleport Require Import Gen.HazardsGen Model.MapLoops Model.DeterminismCheck.
+From Teleport Require Import Gen.HazardsGen Model.MapLoops Model.MapLoopsIR Model.DeterminismCheck.
 Import ListNotations.
 
 (** the translator's type-check of the scope packages had no errors (so "is a map" is decided by go/types) *)
@@ -13,14 +13,27 @@ Theorem inventory_typechecked : typecheck_errors = 0%N.
 Proof. vm_compute. reflexivity. Qed.
 Print Assumptions inventory_typechecked.
 
-(** every [range] over a map (or over an expression of undetermined type) in the scope matches a row of
-    [Model/MapLoops.v: site_table] by file, function and statement hash *)
+(** every [range] over a map (or over an expression of undetermined type) in the scope is, as a term of the loop
+    language regenerated from the source, accepted by the classifier of [Model/MapLoopsIR.v] (whose soundness is
+    [Props/C14.v: C14_map_iteration_partial]; a collecting loop must be sorted by a reviewed canonical sorter whose Less
+    method is unchanged) or is one of the argued rows of [Model/DeterminismCheck.v: argued_sites] *)
 Theorem map_range_sites_covered : unmatched_sites = [].
 Proof. vm_compute. reflexivity. Qed.
 Print Assumptions map_range_sites_covered.
 
+(** the two renderings of the inventory (text rows, loop-language rows) describe the same statements *)
+Theorem inventory_ir_consistent : ir_consistent = true.
+Proof. vm_compute. reflexivity. Qed.
+Print Assumptions inventory_ir_consistent.
+
 (** every other hazardous construct is in a (file, function) group that the allow-list knows with exactly that many
-    constructs and a documented reason *)
+    constructs and a documented reason, and is of a kind that reason is about *)
 Theorem other_hazards_allowed : unallowed_hazards = [].
 Proof. vm_compute. reflexivity. Qed.
 Print Assumptions other_hazards_allowed.
+
+(** VerifyCascadingFields, as written in the tree, builds the ethash engine with CacheDir = "" and calls
+    VerifySeal(_, false): the premises of [Props/C14.v: eth_seal_env_independent] *)
+Theorem eth_seal_verification_in_memory_and_light : eth_seal_config_ok = true.
+Proof. vm_compute. reflexivity. Qed.
+Print Assumptions eth_seal_verification_in_memory_and_light.
